@@ -17,7 +17,8 @@ PROP = "C15"
 LEVEL = "exploration"
 RULE = ("one run = one tile store (format x image mode fixed per run) driven through a generated history of 2-14 operations on 1-2 "
         "positions - write(image with a drawn mask pattern, incl. fully undefined), read(default none / masked), locked update(rectangle, "
-        "masked source), plant a leftover tile file behind toasty's back, delete a file externally - plus in-memory fill / update of "
+        "masked source), nested updates and held masked reads of two positions through one PyramidIO object, plant a leftover tile file "
+        "behind toasty's back, delete a file externally - plus in-memory fill / update of "
         "maskable buffers with drawn (also negative-step) indexers; after every operation the store is compared with a numpy model "
         "(file exists iff defined and not entirely undefined; read-back bit-identical with the same mode); non-trivial = some position "
         "was touched by >= 2 operations; distinct = sha1 of the operation log. Fault kinds: none; interleavings: 1 (serial).")
@@ -39,7 +40,7 @@ MANIFEST = {
 }
 BUDGET = {"quick": (1500, 60), "thorough": (120000, 1200)}
 REQUIRED_PROBES = {"quick": ["op_write", "op_update", "op_plant", "op_write_masked_over_existing", "op_read_absent_masked"],
-                   "thorough": ["op_write", "op_update", "op_plant", "op_delete", "op_write_masked_over_existing", "op_read_absent_masked", "op_fill", "op_buf_update", "neg_step_indexer"]}
+                   "thorough": ["op_write", "op_update", "op_plant", "op_delete", "op_write_masked_over_existing", "op_read_absent_masked", "op_fill", "op_buf_update", "neg_step_indexer", "op_nested_update", "op_held_read"]}
 CHUNK = 40
 
 MODES = ["F32", "RGBA", "I16", "F64", "RGB", "U8", "I32", "F16x3"]
@@ -218,8 +219,9 @@ def run_one(ch, env):
         return None
 
     for k in range(nops):
-        ops = ["write", "update", "read", "write_masked", "plant", "delete", "fill", "buf_update"]
-        weights = [4, 0 if rgb_store else 5, 2, 2, 2, 1, 2, 2]
+        ops = ["write", "update", "read", "write_masked", "plant", "delete", "fill", "buf_update", "nested_update", "held_read"]
+        two = npos == 2 and not rgb_store
+        weights = [4, 0 if rgb_store else 5, 2, 2, 2, 1, 2, 2, 2 if two else 0, 2 if two else 0]
         tot = sum(weights)
         v = ch.draw(tot, kind="op")
         acc = 0
@@ -264,6 +266,41 @@ def run_one(ch, env):
             probe("op_update")
             touched[p] = touched.get(p, 0) + 1
             desc += " pos=%s rect=(%d,%d,%d,%d) mask=%d" % (tuple(p), y0, h, x0, w, mask)
+        elif op in ("nested_update", "held_read"):
+            # two tile positions handled through the same PyramidIO object with overlapping lifetimes
+            pa, pb = positions[0], positions[1]
+            if ch.draw(2, kind="swap_ab"):
+                pa, pb = pb, pa
+            srcs = []
+            for q in (pa, pb):
+                uid += 1
+                m = ch.draw(3, kind="mask")
+                y0, h = draw_rect(ch, 256, False)
+                x0, w = draw_rect(ch, 256, False)
+                srcs.append((gen_source(mode, 256, 256, uid, m), slice(y0, y0 + h), slice(x0, x0 + w)))
+            if op == "nested_update":
+                with pio.update_image(pa, masked_mode=IMODE[mode], default="masked") as ba:
+                    with pio.update_image(pb, masked_mode=IMODE[mode], default="masked") as bb:
+                        Image.from_array(srcs[1][0].copy()).update_into_maskable_buffer(bb, srcs[1][1], srcs[1][2], srcs[1][1], srcs[1][2])
+                    Image.from_array(srcs[0][0].copy()).update_into_maskable_buffer(ba, srcs[0][1], srcs[0][2], srcs[0][1], srcs[0][2])
+                probe("op_nested_update")
+            else:
+                ia = pio.read_image(pa, default="masked", masked_mode=IMODE[mode])
+                ib = pio.read_image(pb, default="masked", masked_mode=IMODE[mode])
+                Image.from_array(srcs[0][0].copy()).update_into_maskable_buffer(ia, srcs[0][1], srcs[0][2], srcs[0][1], srcs[0][2])
+                Image.from_array(srcs[1][0].copy()).update_into_maskable_buffer(ib, srcs[1][1], srcs[1][2], srcs[1][1], srcs[1][2])
+                pio.write_image(pa, ia)
+                pio.write_image(pb, ib)
+                probe("op_held_read")
+            for q, (src, ys, xs) in zip((pa, pb), srcs):
+                cur = model.get(q)
+                buf = cur.copy() if cur is not None else undefined_buffer(tile_mode, 256, 256)
+                model_update(mode, buf, src, ys, xs, ys, xs)
+                model.pop(q, None)
+                if not entirely_undefined(tile_mode, buf):
+                    model[q] = buf
+                touched[q] = touched.get(q, 0) + 1
+            desc += " a=%s b=%s" % (tuple(pa), tuple(pb))
         elif op == "read":
             default = ("none", "masked")[ch.draw(2, kind="read_default")]
             img = pio.read_image(p, default=default, masked_mode=IMODE[mode])
